@@ -107,6 +107,36 @@ class Sym:
             out.append(op); self.a.tokens(out)
         return out
 
+    def dual(self, env, it, x):
+        """exact (value, derivative with respect to the learnable scalar x) — Fractions"""
+        op = self.op
+        if op == "c":
+            return self.a, Fraction(0)
+        if op == "p":
+            return env[self.a], Fraction(1 if self.a == x else 0)
+        if op == "it":
+            return Fraction(it), Fraction(0)
+        if op == "+":
+            (a, da), (b, db) = self.a.dual(env, it, x), self.b.dual(env, it, x)
+            return a + b, da + db
+        if op == "*":
+            (a, da), (b, db) = self.a.dual(env, it, x), self.b.dual(env, it, x)
+            return a * b, da * b + a * db
+        a, da = self.a.dual(env, it, x)
+        if op == "~":
+            return -a, -da
+        return a, -da          # "r": gradient reversal
+
+    def mentions(self):
+        op = self.op
+        if op == "p":
+            return {self.a}
+        if op in ("+", "*"):
+            return self.a.mentions() | self.b.mentions()
+        if op in ("~", "r"):
+            return self.a.mentions()
+        return set()
+
     def degree(self):
         """total degree in the learnable scalars"""
         op = self.op
@@ -716,6 +746,8 @@ def make_trainer(B, case, N, callbacks=(), **kw):
     elif not case["val"]:
         args["limit_val_batches"] = 0
     # else: Lightning's default — one validation pass at the end of the epoch, i.e. after the last step
+    if case.get("limit_batches"):
+        args["limit_train_batches"] = case["limit_batches"]      # the run is split into epochs of that many batches
     args.update(kw)
     return pl.Trainer(**args)
 
@@ -1064,6 +1096,49 @@ def first_tensor_diff(a, b):
     return None
 
 
+def judge_condition_values(rep, case):
+    """property oracle independent of the Lean model AND of the reference loop (which evaluates the library's
+    condition objects): the loss a training condition contributes, and its gradient with respect to every
+    learnable scalar, evaluated on freshly built objects at the first step, equal the loss of the condition as the
+    harness configured it (its own formulas for residual, data functions, points and reduction; exact rationals)"""
+    if case["channel"] != "rat" or case.get("long"):
+        return
+    FB = build(case)
+    torch = FB.torch
+    env = {i: Fraction(FB.ids[i][0].detach().reshape(-1)[FB.ids[i][1]].item()) for i in FB.ids}
+    tens = [t for _, t, _ in FB.tensors]
+    for ci, (c, cond) in enumerate(zip(case["train"], FB.train)):
+        sym = cond_syms(case, FB, c, "t", ci)[0]
+        try:
+            loss = cond(device="cpu", iteration=0)
+            grads = torch.autograd.grad(loss.sum(), tens, allow_unused=True) if loss.requires_grad else [None] * len(tens)
+        except Exception as e:
+            rep.fail(f"training condition {ci} ({c['kind']}) cannot be evaluated: {type(e).__name__}: {str(e)[:160]}", case)
+            continue
+        want = sym.evalf(env, 0)
+        got = float(loss.sum())
+        scale = max(1.0, abs(float(want)))
+        # full-data-set conditions accumulate their value in a float32 tensor (the gradients stay float64)
+        vtol = 1e-6 if (c["kind"] == "hpcm" or c.get("full")) else 1e-9
+        if not abs(got - float(want)) <= vtol * scale:
+            rep.fail(f"training condition {ci} ({c['kind']}, residual {c.get('res')}, weight {c['weight']}): the loss it contributes at the first "
+                     f"step is {got!r}; the loss of the condition as configured (the harness' own evaluation of residual, data functions, "
+                     f"points and reduction) is {float(want)!r}", case, detail=dict(condition=ci, library=got, configured=float(want)))
+            continue
+        ment = sym.mentions()
+        for (name, t, tids), g in zip(FB.tensors, grads):
+            for k, i in enumerate(tids):
+                if i not in ment and g is None:
+                    continue
+                gv = 0.0 if g is None else float(g.reshape(-1)[k])
+                wv = float(sym.dual(env, 0, i)[1])
+                if not abs(gv - wv) <= 1e-9 * max(1.0, abs(wv)):
+                    rep.fail(f"training condition {ci} ({c['kind']}, residual {c.get('res')}): gradient of its loss with respect to {FB.names[i]} is "
+                             f"{gv!r} ({'no gradient path' if g is None else 'autograd'}), the configured loss has {wv!r}", case,
+                             detail=dict(condition=ci, tensor=FB.names[i], library=gv, configured=wv))
+                    break
+
+
 def judge(rep, case, B, rec, Bref, ref, reply):
     N = case["N"]
     if "error" in rec:
@@ -1397,6 +1472,17 @@ def gen_long_case(rng, lo=1100, hi=2100):
     return case
 
 
+def split_epochs(rng, case, p=0.3):
+    """Trainer(limit_train_batches=m) with max_steps > m: the run consists of several epochs (batch_idx restarts,
+    the step count does not).  Scheduler frequency 1 and no in-epoch validation keep Lightning's per-epoch
+    bookkeeping out of the statement."""
+    if rng.random() < p and case["N"] >= 2:
+        case["limit_batches"] = rng.randint(1, max(1, min(3, case["N"] - 1)))
+        case["val_every"] = 0
+        case["opt"]["freq"] = 1
+    return case
+
+
 def gen_cases(ctx):
     rng = ctx.rng
     cases = []
@@ -1405,11 +1491,11 @@ def gen_cases(ctx):
     for _ in range(ctx.scale(30, 300)):
         cases.append(gen_history(rng, rng.choice(["rat", "torch"])))
     for _ in range(ctx.scale(85, 1000)):
-        cases.append(tame(gen_case_rat(rng)))
+        cases.append(split_epochs(rng, tame(gen_case_rat(rng)), 0.2))
     for _ in range(ctx.scale(20, 250)):
-        cases.append(tame(probe_case(rng)))
+        cases.append(split_epochs(rng, tame(probe_case(rng)), 0.5))
     for _ in range(ctx.scale(42, 500)):
-        cases.append(gen_case_torch(rng))
+        cases.append(split_epochs(rng, gen_case_torch(rng), 0.3))
     return cases
 
 
@@ -1485,6 +1571,9 @@ def run(ctx, rep, cases=None):
         if case["opt"].get("step_size"):
             rep.count("scheduler:StepLR")
         judge(rep, case, B, rec, Bref, ref, reply)
+        judge_condition_values(rep, case)
+        if case.get("limit_batches"):
+            rep.count(f"epochs-of-{case['limit_batches']}-batches" + (":with-index-using-condition" if any(c["kind"] in ("probe", "pideeponet", "deeponet_data") for c in case["train"]) else ""))
         if reply and refreply and not reply.startswith(("err", "bad")):
             # the model's own reference loop must agree with its solver run (theorem solver_eq_ref, executed)
             _, steps, info = parse_traj(reply, case["N"])
